@@ -38,6 +38,8 @@ type genCfg struct {
 	propWrites  bool // scripts may write their (copied) step properties
 	errorNode   bool // the spec may define its own (non-terminal) "error" node
 	multiCand   bool // patterns that match in several ways, with guards that accept some candidates (outcome may be arbitrary)
+	sameStub    bool // native actions that hand back the very bindings they were given
+	varStrings  bool // message values may be strings that look like pattern variables ("?v"): data, not patterns
 }
 
 var constVals = []interface{}{1.0, 2.0, "x", "y", true, nil, 1.5}
@@ -77,6 +79,10 @@ var ineqName = "?<n"
 // genMultiCand: whether the current program may use patterns with several
 // candidates (set by genSpec from its configuration; also steers genMessage).
 var genMultiCand = false
+
+// genVarStrings: whether message values may be strings that look like pattern
+// variables (a peer that sends a pattern as data).  Once bound they are values.
+var genVarStrings = false
 
 func genMsgPattern(c *sim.Ctx, keys []string, ineq bool) interface{} {
 	if c.Chance(1, 12, "scalarpat") {
@@ -143,6 +149,8 @@ func genMessage(c *sim.Ctx) interface{} {
 			m[k] = map[string]interface{}{"p": genConst(c)}
 		} else if genMultiCand && c.Chance(1, 6, "msgarr") {
 			m[k] = [][]interface{}{{1.0, 2.0, 3.0}, {2.0, "x"}, {"x", "y", 2.0}, {1.0}}[c.Intn(4, "msgarrval")]
+		} else if genVarStrings && c.Chance(1, 8, "msgvarstring") {
+			m[k] = []interface{}{"?v", "?w", "?", "?v"}[c.Intn(4, "msgvarstringval")]
 		} else {
 			m[k] = genConst(c)
 		}
@@ -155,7 +163,11 @@ func genAction(c *sim.Ctx, cfg genCfg, names []string, guard bool) *ref.Action {
 	if cfg.native && c.Chance(1, 3, "native") {
 		a.Native = true
 		if cfg.stubs && c.Chance(1, 4, "stub") {
-			a.Stub = []string{"nil-err", "partial-err", "nil-bs", "no-events"}[c.Intn(4, "stubkind")]
+			// "same": hands back the very bindings it was given, as the shipped noop
+			// interpreter and the sio captain's native action do
+			a.Stub = []string{"nil-err", "partial-err", "nil-bs", "no-events", "same", "same"}[c.Intn(6, "stubkind")]
+		} else if cfg.sameStub && c.Chance(1, 5, "samestub") {
+			a.Stub = "same"
 		}
 	}
 	n := 1 + c.Intn(4, "nops")
@@ -200,7 +212,7 @@ func genAction(c *sim.Ctx, cfg genCfg, names []string, guard bool) *ref.Action {
 			}
 		case k == 12:
 			if cfg.failOps {
-				a.Ops = append(a.Ops, ref.Op{Kind: []string{"retbad", "retbad", "retarr", "retfn", "retdate"}[c.Intn(5, "badkind")]})
+				a.Ops = append(a.Ops, ref.Op{Kind: []string{"retbad", "retbad", "retarr", "retfn", "retdate", "retgetter"}[c.Intn(6, "badkind")]})
 			}
 		case k == 13:
 			if cfg.failOps && !a.Native {
@@ -226,6 +238,7 @@ func genAction(c *sim.Ctx, cfg genCfg, names []string, guard bool) *ref.Action {
 func genSpec(c *sim.Ctx, cfg genCfg) *ref.Spec {
 	ineqName = "?<n" + cfg.ineqSuffix
 	genMultiCand = cfg.multiCand
+	genVarStrings = cfg.varStrings
 	nn := 2 + c.Intn(cfg.maxNodes-1, "nnodes")
 	names := make([]string, nn)
 	for i := range names {
@@ -400,6 +413,9 @@ func renderJS(a *ref.Action) string {
 			sb.WriteString("return function() { return 1; };\n")
 		case "retdate":
 			sb.WriteString("return new Date(0);\n")
+		case "retgetter":
+			// an object whose property fails when the interpreter reads the result
+			sb.WriteString("return {get a() { throw new Error(\"getter\"); }};\n")
 		case "require":
 			fmt.Fprintf(&sb, "if (bs[%s] !== %s) { return null; }\n", jsLit(op.K), jsLit(op.V))
 		case "propset":
@@ -432,6 +448,8 @@ func nativeAction(a *ref.Action) *core.FuncAction {
 		case "no-events":
 			// an Execution built by hand, without the constructor
 			return &core.Execution{Bs: match.Bindings{"made": "by hand"}}, nil
+		case "same":
+			return core.NewExecution(in), nil
 		}
 		var w map[string]interface{}
 		if in != nil {
@@ -464,7 +482,7 @@ func nativeAction(a *ref.Action) *core.FuncAction {
 				w = map[string]interface{}{}
 			case "throw":
 				return nil, errors.New("boom")
-			case "retbad", "retarr", "retfn", "retdate":
+			case "retbad", "retarr", "retfn", "retdate", "retgetter":
 				return nil, fmt.Errorf("42 (int64) isn't Bindings")
 			case "retnull":
 				return exe, nil
